@@ -646,7 +646,11 @@ def build(pipe, rec, pre, ctx):
     if rec is not None and (not ends_only or len(pre) == 0):
         ops.append(tap(rec, list(pre) + [0]))
     for i, op in enumerate(pipe, start=1):
-        if ctx.get('share_ops') and op['op'] not in ('roll', 'split', 'group_by', 'time_split', 'tee', 'router'):
+        composite = op['op'] in ('roll', 'split', 'group_by', 'time_split', 'tee')
+        # (a composite operator has taps inside unless the run is untapped: then the composite
+        # operator object, too, is the same one wherever its descriptor occurs)
+        if ctx.get('share_ops') and op['op'] != 'router' and \
+                (not composite or rec is None or ends_only):
             # the same python operator object wherever the same descriptor occurs in the
             # pipeline (operators are factories: using one twice must be harmless)
             import json as _json
@@ -697,7 +701,7 @@ def _push(src, ev):
 
 
 def run_mux(pipe, events, timescale=None, taps='all', dl_late=False, share_ops=False, warmup=None,
-            store_split=None, feedback=None):
+            store_split=None, feedback=None, reapply=False):
     """Push mux events directly on a MuxObservable (as the repository's own tests do).
     events: [{'t':'c'|'n'|'d', 'k':[idx], 'v':value}] ; the source completes at the end
     unless the last event is {'t':'open'}."""
@@ -735,10 +739,24 @@ def run_mux(pipe, events, timescale=None, taps='all', dl_late=False, share_ops=F
                 _subscribe_routers(rec, ctx)
                 routers_done = True
             try:
-                d0 = obs.subscribe(on_next=lambda i: None, on_error=lambda e: None)
-                for ev in warmup:
-                    _push(src, ev)
-                d0.dispose()
+                if reapply and not ctx['routers']:
+                    # the same python operator objects were applied before, to another source
+                    # with a store manager of its own, and that stream has completed: an
+                    # operator is a function from an observable to an observable, applying
+                    # it again starts from nothing
+                    src0 = Subject()
+                    store0 = rs.state.StoreManager(store_factory=rs.state.MemoryStore)
+                    obs0 = src0.pipe(rs.cast_as_mux_observable(),
+                                     rs.state.with_store(store0, rx.pipe(*ops)))
+                    obs0.subscribe(on_next=lambda i: None, on_error=lambda e: None)
+                    for ev in warmup:
+                        _push(src0, ev)
+                    src0.on_completed()
+                else:
+                    d0 = obs.subscribe(on_next=lambda i: None, on_error=lambda e: None)
+                    for ev in warmup:
+                        _push(src, ev)
+                    d0.dispose()
             except Exception:
                 pass
             rec.reset()
@@ -1076,7 +1094,7 @@ def run_plain_late_subscriber(pipe, items, k, dispose_first_at=None):
     return res
 
 
-def run_plain(pipe, items, complete=True, share_ops=False, feedback=False):
+def run_plain(pipe, items, complete=True, share_ops=False, feedback=False, reapply=None):
     """The plain (non multiplexed) code path of the same pipeline: items of one group
     as an ordinary observable.  Returns outputs with the number of source items pushed
     when each was emitted, and how the stream ended."""
@@ -1106,6 +1124,16 @@ def run_plain(pipe, items, complete=True, share_ops=False, feedback=False):
         state['end'] = 'completed'
         state['endstep'] = state['step']
     with C.quiet_stdout():
+        if reapply and ops and not ctx['routers']:
+            # the same operator objects applied to another source before, which has completed
+            try:
+                src0 = Subject()
+                src0.pipe(*ops).subscribe(on_next=lambda i: None, on_error=lambda e: None)
+                for v in reapply:
+                    src0.on_next(dec(v))
+                src0.on_completed()
+            except Exception:
+                pass
         obs = src.pipe(*ops) if ops else src
         obs.subscribe(on_next=on_next, on_error=on_error, on_completed=on_completed)
         try:
